@@ -30,7 +30,8 @@ macro "expr_close" : tactic => `(tactic|
   | (push_cast; ring_nf; done)
   | (push_cast; split_ifs <;> ring_nf; done)
   | (norm_num; ring_nf; done)
-  | (push_cast; split_ifs <;> norm_num <;> ring_nf; done))
+  | (push_cast; split_ifs <;> norm_num <;> ring_nf; done)
+  | (simp only [decide_eq_true_eq]; push_cast; split_ifs <;> first | rfl | (ring_nf; done) | (norm_num; ring_nf; done) | (simp_all; done)))
 
 /-- closer for `evalR Gen.X = <closed form>` goals after `expr_unfold`: insensitive to operand order, association, the spelling of
     integer powers and of decimal literals (so that semantics-preserving rewrites of the Python source do not break the proof) -/
